@@ -96,8 +96,10 @@ class StepClock:
         return self.now
 
 
+# (("real",) = the unpatched clock is understood by `patched`/`search` but is not part of the family: it would
+# make the returned specification depend on the machine load)
 SCHEDULES: List[tuple] = (
-    [("real",)]
+    [("period", 1, 0.0001)]
     + [("trip", k) for k in range(1, 13)]
     + [("period", p, j) for p in (1, 2, 3, 5) for j in (0.01, 1.0)]
 )
@@ -140,7 +142,10 @@ def _same_terms(a, b) -> bool:
 
 
 def _post_auto_search(self, result) -> bool:
-    FIRED["auto_search: root == start class"] += 1
+    if self is CTX["searcher"]:
+        # (nested searches of verification strategies are checked too, but not counted: whether they run
+        # depends on the per-process specification cache of harness.universe)
+        FIRED["auto_search: root == start class"] += 1
     expected = CTX["start"] if self is CTX["searcher"] else self.start_class
     return result.root == expected and type(result.root) is type(expected)
 
@@ -479,7 +484,7 @@ def run(tier: str, seed: int) -> dict:
             f"{n_starts} start classes (alphabets a, b, ab; <= 2 patterns of length <= 3; prefix length <= 2; "
             f"0-2 statistics) x {len(PACKS)} packs x 3 rule databases, each with {CONFIGS_PER_COMBO[tier]} of "
             f"{len(OPTIONS) * len(SCHEDULES) * 3} configurations (3 options x {len(SCHEDULES)} clock schedules "
-            f"[real, trip at reading 1..12, periodic 1/2/3/5 x 0.01/1.0 s] x 3 RNG seeds) drawn by seed {seed}; "
+            f"[tick 0.1 ms per reading, trip at reading 1..12, periodic 1/2/3/5 x 0.01/1.0 s] x 3 RNG seeds) drawn by seed {seed}; "
             f"searches resumed after ExceededMaxtimeError up to {MAX_RESUMES} times; sizes n <= {nmax}; all "
             f"parameter tuples in [0, n+1]^k"
         ),
